@@ -1570,3 +1570,59 @@ func ruleSignalTakenOnlyAtTheWait(c *Check, p *Prog, rule string) {
 	}
 	c.MinInstances(rule, 3)
 }
+
+// ruleOnDiskStoreOptionsDefault (C15-R11 = C14-R13): "one batch, one commit" is atomic only as
+// far as the backend's write batch is: badger's WriteBatch commits what it holds and goes on
+// whenever the pending transaction would pass its size limit, which is a fraction of the
+// memtable size. With the library's defaults the limit is far above a block; a store opened with
+// a smaller memtable commits a large block's batch in pieces — a block that is then rejected has
+// already changed the store. The node's on-disk store is opened with the library's own options.
+func ruleOnDiskStoreOptionsDefault(c *Check, p *Prog, rule string) {
+	c.Doc(rule, "CT: the constructor of the node's on-disk key-value store hands go-ds-badger4 nil options or its DefaultOptions untouched (no size-tuning method of badger's Options is called in pkg/store): the write-batch transaction limit, on which the atomicity of a block's batch rests, stays the library's.")
+	storePk := rootPath + "/pkg/store"
+	n := 0
+	for _, fn := range p.Funcs {
+		pk := fnPkg(fn)
+		if pk == nil || pk.Pkg.Path() != storePk || fn.Blocks == nil {
+			continue
+		}
+		for _, b := range fn.Blocks {
+			for _, in := range b.Instrs {
+				call, ok := in.(*ssa.Call)
+				if !ok || !strings.HasSuffix(commonName(call.Common()), "go-ds-badger4.NewDatastore") || len(call.Common().Args) < 2 {
+					continue
+				}
+				// the in-memory store (first argument "") is not the node's durable store
+				if k, ok := call.Common().Args[0].(*ssa.Const); ok && k.Value != nil && k.Value.ExactString() == `""` {
+					continue
+				}
+				n++
+				inst := fnShort(fn) + " ⟂ library options"
+				if k, ok := call.Common().Args[1].(*ssa.Const); ok && k.IsNil() {
+					c.OK(rule, inst, fnName(fn), p.InstrPos(in), "the store is opened with nil options (the library's defaults)", true)
+					continue
+				}
+				// options given: no tuning call in the function
+				tuned := ""
+				for _, bb := range fn.Blocks {
+					for _, i2 := range bb.Instrs {
+						if c2, ok := i2.(*ssa.Call); ok {
+							cn := commonName(c2.Common())
+							if strings.Contains(cn, "badger/v4.Options).With") {
+								tuned = cn[strings.LastIndex(cn, ".")+1:] + " @" + p.InstrPos(i2)
+							}
+						}
+					}
+				}
+				if tuned == "" {
+					c.OK(rule, inst, fnName(fn), p.InstrPos(in), "options are passed, but none of badger's tuning methods is applied to them", true)
+				} else {
+					c.Bad(rule, inst, fnName(fn), p.InstrPos(in), "the node's on-disk store is opened with tuned badger options ("+tuned+"): badger's write batch commits in pieces once a transaction passes a fraction of the memtable size, so a smaller memtable makes a block's batch non-atomic — a rejected block with enough data before the bad transaction is partly committed, and a crash mid-block leaves half a block", nil)
+				}
+			}
+		}
+	}
+	if n == 0 {
+		c.Unk(rule, "anchor-count", "", "", "anchor lost: no on-disk badger store is opened in pkg/store")
+	}
+}
